@@ -45,6 +45,10 @@ class AbstractDenseTimeOnlineInterpreter(AbstractOnlineInterpreter, DenseTimeInt
 
         return rob
 
+    def reset(self):
+        super(AbstractDenseTimeOnlineInterpreter, self).reset()
+        self.updateVisitor = DenseTimeOnlineUpdateVisitor()
+
     def update_final(self, dataset):
         # check ast exists
         self.exist_ast()
@@ -69,6 +73,10 @@ class AbstractDenseTimeOnlineInterpreter(AbstractOnlineInterpreter, DenseTimeInt
                     self.online_operator_dict[var_name].sample = var_object
 
 class DenseTimeOnlineUpdateVisitor(AbstractOnlineUpdateVisitor):
+    def __init__(self):
+        super(DenseTimeOnlineUpdateVisitor, self).__init__()
+        self.constants_emitted = set()
+
     def visitVariable(self, node, online_operator_dict, var_object_dict):
         vals = var_object_dict[node.var]
         if node.field:  #TODO Tom did not understand this line.
@@ -80,6 +88,11 @@ class DenseTimeOnlineUpdateVisitor(AbstractOnlineUpdateVisitor):
         return sample_return
 
     def visitConstant(self, node, online_operator_dict, var_object_dict):
+        # A constant is one segment from 0 to infinity.  The operators keep the
+        # part they have not consumed between updates, so it is emitted only once.
+        if node in self.constants_emitted:
+            return []
+        self.constants_emitted.add(node)
         sample_return = [[0, node.val], [float("inf"), node.val]]
         return sample_return
 
